@@ -346,7 +346,7 @@ pub fn run(ctx: &Ctx) -> PropResult {
         let e2e = if idx % 50 == 0 { Some(path.as_path()) } else { None };
         outcome_of(rec, rng, bytes, &format!("{}: {}", br[bi].0, what), family, e2e);
     }));
-    wls.push(Workload::cases("hostile_footers", ctx.n(60_000, 4_000_000), move |rec, idx, rng| {
+    wls.push(Workload::cases("hostile_footers", ctx.count(60_000, 4_000_000), move |rec, idx, rng| {
         let bi = rng.below(br.len() as u64) as usize;
         let (name, base) = &br[bi];
         // footers only exist in v2+; for a v1 base promote the version bytes
@@ -383,7 +383,7 @@ pub fn run(ctx: &Ctx) -> PropResult {
         bytes.push(b'\n');
         outcome_of(rec, rng, &bytes, &format!("empty table + footer {:?}", f), "footer-on-empty-table", None);
     }));
-    wls.push(Workload::cases("random_damage", ctx.n(60_000, 4_000_000), move |rec, idx, rng| {
+    wls.push(Workload::cases("random_damage", ctx.count(60_000, 4_000_000), move |rec, idx, rng| {
         let bi = rng.below(br.len() as u64) as usize;
         let (name, base) = &br[bi];
         let mut b = base.clone();
